@@ -1795,6 +1795,10 @@ def _as_seq(ex, st, v):
 def m_vec_push(ex, st, fr, callee, args, argtys, dty):
     if not isinstance(args[0], Ref):
         return NotImplemented
+    cur = _deref_val(ex, st, args[0])
+    if isinstance(cur, SymColl):
+        ex.write_ref(st, args[0], SymColl(cur.items + ((z3.BoolVal(True), args[1]),), cur.kind))
+        return UNIT
     v = _as_seq(ex, st, args[0])
     ex.write_ref(st, args[0], Seq(v.parts + (("item", args[1]),)))
     return UNIT
@@ -2071,6 +2075,24 @@ def m_bool_cmp(ex, st, fr, callee, args, argtys, dty):
     return Opq(ex.fresh("ord", Val), "Ordering", {("d",): d})
 
 
+def m_coll_contains(ex, st, fr, callee, args, argtys, dty):
+    c = _coll(ex, st, args[0])
+    if c is None:
+        return NotImplemented
+    x = ex.to_val(st, _deref_val(ex, st, args[1]))
+    return z3.Or(*[z3.And(p, ex.to_val(st, v) == x) for p, v in c.items]) if c.items else z3.BoolVal(False)
+
+
+def m_coll_len(ex, st, fr, callee, args, argtys, dty):
+    c = _coll(ex, st, args[0])
+    if c is None:
+        return NotImplemented
+    n = z3.BitVecVal(0, 64)
+    for p_, _v in c.items:
+        n = n + z3.If(p_, z3.BitVecVal(1, 64), z3.BitVecVal(0, 64))
+    return n
+
+
 def m_coll_is_empty(ex, st, fr, callee, args, argtys, dty):
     c = _coll(ex, st, args[0])
     if c is None:
@@ -2115,6 +2137,8 @@ STD_MODELS = [
     (r" as Iterator>::collect::<", m_coll_collect),
     (r" as Iterator>::(any|all)::<", m_coll_any_all),
     (r"^(HashSet|Vec)::<.*>::is_empty$", m_coll_is_empty),
+    (r"^(HashSet|Vec)::<.*>::len$", m_coll_len),
+    (r"^core::slice::<impl \[.*\]>::contains$|^(HashSet|Vec)::<.*>::contains(::<.*>)?$", m_coll_contains),
     (r"^Option::<.*>::ok_or_else::<", m_ok_or_else),
     (r"^Option::<.*>::ok_or::<", m_ok_or),
     (r"^Result::<.*>::map_err::<", m_map_err),
